@@ -138,19 +138,13 @@ theorem foldl_items {β} (ns : List Str) (f : β → GrpElem → β) (h : ∀ a 
 theorem tgSettings_fail (c : Cur) (h : sym "[" c = .fail) : tgSettings c = .fail := by
   unfold tgSettings; simp only [bind, pbind, h]
 
-/-- the table-group rule on the rendered text, after the blank lines before it and before whatever follows -/
-theorem tableGroupRule_okP (c c0 : Cur) (g : Str) (ns : List Str) (post : Str) (Q : Cur → Prop)
-    (hb : cBefore c = .ok [] c0) (hc : c0.rest = groupText g ns ++ post) (hp : c0.pastEnd = false)
+/-- the table-group rule once its keyword - in whatever letter case - has been read -/
+theorem tableGroupRule_from (c c0 c1 : Cur) (g : Str) (ns : List Str) (post : Str) (Q : Cur → Prop)
+    (hb : cBefore c = .ok [] c0) (hk : clit "TableGroup" c0 = .ok () c1)
+    (hr1 : c1.rest = ' ' :: '"' :: (g ++ '"' :: ' ' :: '{' :: '\n' :: (memberLines ns ++ '}' :: post))) (hp1 : c1.pastEnd = false)
     (hg : NameOK g) (hns : ∀ n ∈ ns, NameOK n)
     (hend : ∀ c7 : Cur, c7.rest = post → c7.pastEnd = false → ∃ c9, endRule c7 = .ok () c9 ∧ Q c9) :
     ∃ c9, tableGroupRule c = .ok (groupBpOf g ns) c9 ∧ Q c9 := by
-  have hc' : c0.rest = ['T', 'a', 'b', 'l', 'e', 'G', 'r', 'o', 'u', 'p'] ++ ' ' :: '"' :: (g ++ '"' :: ' ' :: '{' :: '\n' ::
-      (memberLines ns ++ '}' :: post)) := by rw [hc]; simp [groupText]
-  have hN : (skipWs c0).rest = ['T', 'a', 'b', 'l', 'e', 'G', 'r', 'o', 'u', 'p'] ++ ' ' :: '"' :: (g ++ '"' :: ' ' :: '{' :: '\n' ::
-      (memberLines ns ++ '}' :: post)) := by
-    rw [skipWs_rest_head c0 'T' _ (by rw [hc']; rfl) (by decide)]; rfl
-  obtain ⟨c1, hk, hr1, hp1⟩ := clit_ok "TableGroup" c0 ['T', 'a', 'b', 'l', 'e', 'G', 'r', 'o', 'u', 'p'] _ hN (by decide)
-    (by simp [startsWithCaseless] <;> decide) hp
   have hN1 : (skipWs c1).rest = '"' :: (g ++ '"' :: (' ' :: '{' :: '\n' :: (memberLines ns ++ '}' :: post))) :=
     skipWs_rest_spaces c1 1 '"' _ (by rw [hr1]; rfl) (by decide)
   obtain ⟨c2, hnm, hr2, hp2⟩ := name_quoted_ok c1 g _ hN1 hg hp1
@@ -182,6 +176,21 @@ theorem tableGroupRule_okP (c c0 : Cur) (g : Str) (ns : List Str) (post : Str) (
     Option.getD_none, List.foldl_nil]
   rw [filterMap_items _ _ (fun _ => rfl), foldl_items _ _ (fun _ _ => rfl)]
   rfl
+
+/-- the table-group rule on the rendered text, after the blank lines before it and before whatever follows -/
+theorem tableGroupRule_okP (c c0 : Cur) (g : Str) (ns : List Str) (post : Str) (Q : Cur → Prop)
+    (hb : cBefore c = .ok [] c0) (hc : c0.rest = groupText g ns ++ post) (hp : c0.pastEnd = false)
+    (hg : NameOK g) (hns : ∀ n ∈ ns, NameOK n)
+    (hend : ∀ c7 : Cur, c7.rest = post → c7.pastEnd = false → ∃ c9, endRule c7 = .ok () c9 ∧ Q c9) :
+    ∃ c9, tableGroupRule c = .ok (groupBpOf g ns) c9 ∧ Q c9 := by
+  have hc' : c0.rest = ['T', 'a', 'b', 'l', 'e', 'G', 'r', 'o', 'u', 'p'] ++ ' ' :: '"' :: (g ++ '"' :: ' ' :: '{' :: '\n' ::
+      (memberLines ns ++ '}' :: post)) := by rw [hc]; simp [groupText]
+  have hN : (skipWs c0).rest = ['T', 'a', 'b', 'l', 'e', 'G', 'r', 'o', 'u', 'p'] ++ ' ' :: '"' :: (g ++ '"' :: ' ' :: '{' :: '\n' ::
+      (memberLines ns ++ '}' :: post)) := by
+    rw [skipWs_rest_head c0 'T' _ (by rw [hc']; rfl) (by decide)]; rfl
+  obtain ⟨c1, hk, hr1, hp1⟩ := clit_ok "TableGroup" c0 ['T', 'a', 'b', 'l', 'e', 'G', 'r', 'o', 'u', 'p'] _ hN (by decide)
+    (by simp [startsWithCaseless] <;> decide) hp
+  exact tableGroupRule_from c c0 c1 g ns post Q hb hk hr1 hp1 hg hns hend
 
 /-! ### the element form -/
 
